@@ -215,6 +215,12 @@ type genOpts struct {
 	Salt uint64
 	// Wide: the directed wide-ASCII-row mesh (see wide.go)
 	Wide *wideSpec
+	// block-exact cases of the large phase: exactly this many triangles, texture
+	// coordinates forced on (1) / off (2), a fixed attribute set written by ply.Write
+	ForcePrims int
+	ForceTex   int
+	FixedAttrs []paletteEntry
+	BlockLabel string
 }
 
 type paletteEntry struct {
@@ -272,6 +278,13 @@ func genMesh(r *rand.Rand, o genOpts) *meshCase {
 		n = len(o.Wide.Widths)
 		mc.Tri = r.Intn(3) == 0
 	}
+	if o.ForcePrims > 0 {
+		mc.Tri = true
+		n = 200 + r.Intn(3000)
+	}
+	if o.FixedAttrs != nil && o.ForcePrims == 0 {
+		mc.Tri = r.Intn(3) == 0
+	}
 	mc.N = n
 
 	// --- indices
@@ -289,6 +302,10 @@ func genMesh(r *rand.Rand, o genOpts) *meshCase {
 		}
 		maxP := 2*n/3 + 2
 		np := 1 + r.Intn(maxP)
+		if o.ForcePrims > 0 {
+			np = o.ForcePrims
+			pat = []string{"welded", "random", "unreferenced", "repeated"}[r.Intn(4)]
+		}
 		switch pat {
 		case "unwelded":
 			k := n - n%3
@@ -424,7 +441,15 @@ func genMesh(r *rand.Rand, o genOpts) *meshCase {
 			add(e)
 		}
 	}
-	if (mc.Tri && r.Intn(2) == 0) || (!mc.Tri && r.Intn(8) == 0) {
+	if o.FixedAttrs != nil {
+		mc.Attrs = nil
+		for _, e := range o.FixedAttrs {
+			add(e)
+		}
+	}
+	if o.ForceTex == 1 {
+		add(paletteEntry{modeling.TexCoordAttribute, 2, 1, []string{"unit", "f64", "f32", "wide"}})
+	} else if o.ForceTex == 0 && o.FixedAttrs == nil && ((mc.Tri && r.Intn(2) == 0) || (!mc.Tri && r.Intn(8) == 0)) {
 		// on a cloud the format has no place for it unless a property writer stores it as s/t
 		add(paletteEntry{modeling.TexCoordAttribute, 2, 1, []string{"unit", "f64", "f32", "wide"}})
 	}
@@ -549,6 +574,9 @@ func splatWriters() []wspec {
 }
 
 func genConfig(r *rand.Rand, mc *meshCase, o genOpts) config {
+	if o.FixedAttrs != nil {
+		return config{Kind: "default", Writers: defaultWriters, Unspecified: true}
+	}
 	if o.Wide != nil {
 		return wideConfig(r, mc)
 	}
